@@ -370,6 +370,12 @@ func load(cmdline, environ, envprefix []string, props *properties.Properties) (c
 		return nil, fmt.Errorf("glob.cache.size must be greater than zero")
 	}
 
+	// the prometheus listener registers the path with a http.ServeMux which
+	// panics on a pattern that does not start with a slash
+	if !strings.HasPrefix(cfg.Metrics.Prometheus.Path, "/") {
+		return nil, fmt.Errorf("metrics.prometheus.path must start with '/'")
+	}
+
 	if cfg.Registry.Consul.AllowStale && cfg.Registry.Consul.RequireConsistent {
 		return nil, fmt.Errorf("registry.consul.allowStale and registry.consul.requireConsistent cannot both be true")
 	}
